@@ -402,7 +402,9 @@ theorem incr_sim {s t : Cache} (h : Sim s t) (E : Externals) (now : Int) (k : Py
       rcases (hu.logSql "selKey" "selKey").store E (.int (d + delta)) false with
         ⟨e, e1, e2⟩ | ⟨s', t', c, e1, e2, h'⟩
       · rw [e1, e2]; sim_body
-      · rw [e1, e2]; sim_body
+      · rw [e1, e2]
+        simp only [regCreated_zero s' c.file h'.ds, regCreated_zero t' c.file h'.dt]
+        sim_body
   | some r =>
     simp only
     split
@@ -412,7 +414,9 @@ theorem incr_sim {s t : Cache} (h : Sim s t) (E : Externals) (now : Int) (k : Py
         rcases (hu.logSql "selKey" "selKey").store E (.int (d + delta)) false with
           ⟨e, e1, e2⟩ | ⟨s', t', c, e1, e2, h'⟩
         · rw [e1, e2]; sim_body
-        · rw [e1, e2]; sim_body
+        · rw [e1, e2]
+          simp only [regCreated_zero s' c.file h'.ds, regCreated_zero t' c.file h'.dt]
+          sim_body
     · split
       · split
         · sim_body
